@@ -19,6 +19,7 @@ import unified_planning.engines as engines
 from unified_planning.engines.mixins.compiler import CompilationKind, CompilerMixin
 from unified_planning.engines.compilers.utils import updated_minimize_action_costs
 from unified_planning.engines.results import CompilerResult
+from unified_planning.engines.compilers.utils import rewritten_problem_kind
 from unified_planning.exceptions import (
     UPProblemDefinitionError,
     UPConflictingEffectsException,
@@ -144,10 +145,14 @@ class ConditionalEffectsRemover(engines.engine.Engine, CompilerMixin):
     def resulting_problem_kind(
         problem_kind: ProblemKind, compilation_kind: Optional[CompilationKind] = None
     ) -> ProblemKind:
-        new_kind = problem_kind.clone()
+        new_kind = rewritten_problem_kind(problem_kind)
         if new_kind.has_conditional_effects():
             new_kind.unset_effects_kind("CONDITIONAL_EFFECTS")
             new_kind.set_conditions_kind("NEGATIVE_CONDITIONS")
+            # a conditional timed effect `if c then f := v` becomes `f := (c and v) or (not c and f)`
+            if new_kind.has_timed_effects():
+                new_kind.set_effects_kind("FLUENTS_IN_BOOLEAN_ASSIGNMENTS")
+                new_kind.set_effects_kind("STATIC_FLUENTS_IN_BOOLEAN_ASSIGNMENTS")
         return new_kind
 
     def _compile(
